@@ -546,6 +546,44 @@ fn run_product(rep: &mut Report, mode: Mode, tier: Tier) {
         rep.bounds["pumped-families"] = json!({"values": n, "thresholds": "0..=40 and 2^k +- 1 up to 4 097 (quick) / 65 537 (thorough)", "extra_width_limits": [254, 255, 256, 257, 65534, 65535, 65536, 65537]});
         rep.absorb(t);
     }
+    // every numeric option field through a dense range: 0..=136, every multiple of 16 with its
+    // neighbours up to 1 025 (a padding of n blanks is one more size parameter, and buffers and
+    // chunk sizes in a printer need not be powers of two), on records with and without
+    // expansion, on values that print every kind of padding
+    {
+        let sizes = refmodel::pump::thresholds(1025);
+        let vals: Vec<RV> = vec![
+            RV::Arr(vec![]),
+            RV::Obj(vec![]),
+            RV::Arr(vec![RV::num("1"), RV::num("2")]),
+            RV::Obj(vec![("a".to_string(), RV::num("1")), ("b".to_string(), RV::Arr(vec![]))]),
+            RV::Arr(vec![RV::Arr(vec![RV::Null]), RV::Obj(vec![("k".to_string(), RV::Obj(vec![]))])]),
+        ];
+        let reals: Vec<Value> = vals.iter().map(bridge::to_value).collect();
+        let mut always = Opts::pretty();
+        always.array_limit = Some(Limit::Always);
+        always.object_limit = Some(Limit::Always);
+        let mut wide = Opts::pretty();
+        wide.array_limit = Some(Limit::Width(100_000));
+        wide.object_limit = Some(Limit::Item(10));
+        let bases = [Opts::compact(), Opts::pretty(), always, wide];
+        let items: Vec<(usize, usize)> = (0..12).flat_map(|f| sizes.iter().map(move |&n| (f, n))).collect();
+        let count = items.len();
+        let t = explore::par_tally(items, |(field, n), t| {
+            for base in &bases {
+                let mut o = base.clone();
+                *o.numeric_fields()[field] = n;
+                for (rv, real) in vals.iter().zip(&reals) {
+                    check_case(mode, rv, real, &o, t);
+                }
+            }
+            t.nontrivial(&("field", field, n));
+            t.states += 1;
+            t.outcome("pumped:option field");
+        });
+        rep.bounds["option-fields"] = json!({"fields": 12, "values_per_field": sizes.len(), "base_records": 4, "values": vals.len(), "cases": count * 4 * vals.len()});
+        rep.absorb(t);
+    }
     // depth x indentation: values nested d deep (alternating arrays and objects, a sibling leaf
     // at every level) under every indent unit, with containers expanded at every level and
     // with the pretty limits - the indentation of a line is depth x unit, two parameters at once
